@@ -235,6 +235,10 @@ def _gen_choice(r):
             ['q', {'k': 'SEQOF', 'tags': [], 'of': {'k': 'INTEGER', 'tags': []}}],
             ['n', {'k': 'NULL', 'tags': [['I', 'C', 7]]}]]
     alts = [a for a in alts if r.random() < 0.75] or alts[:2]
+    if r.random() < 0.5:
+        # an untagged CHOICE as an alternative: its alternatives are addressed through the outer one by tag
+        alts.append(['c', {'k': 'CHOICE', 'tags': [], 'alts': [['cx', {'k': 'INTEGER', 'tags': [['I', 'C', 20]]}],
+                                                            ['cy', {'k': 'OCTETSTRING', 'tags': [['I', 'C', 21]]}]]}])
     desc = {'k': 'CHOICE', 'tags': [], 'alts': alts}
     ops = []
     for _ in range(r.choice([4, 10, 24])):
@@ -252,9 +256,13 @@ def _gen_choice(r):
                 ops.append([m])
         elif x < 0.88:
             rd = r.choice(['getName', 'getComponent', 'len', 'iter', 'items', 'get_noinst', 'encode', 'isValue', 'contains',
-                           'prettyPrint', 'eq_self'])
+                           'prettyPrint', 'eq_self', 'get_type', 'get_type'])
             if rd == 'get_noinst':
                 ops.append([rd, j])
+            elif rd == 'get_type':
+                # tag-addressed read that must not instantiate: [alternative, inner alternative or None, innerFlag]
+                inner = r.randrange(2) if (alts[j][1]['k'] == 'CHOICE' and r.random() < 0.8) else None
+                ops.append([rd, j, inner, r.random() < 0.6])
             elif rd == 'contains':
                 ops.append([rd, r.choice([a[0] for a in alts] + ['nope'])])
             else:
@@ -942,7 +950,8 @@ class ChoiceRun(object):
                 slots.append(None)
             else:
                 a = U.absval(c)
-                slots.append('HOLE' if (len(a) == 3 and a[2] == 'NOVALUE') else a)
+                # a placeholder: a schema object, or a nested CHOICE with nothing chosen
+                slots.append('HOLE' if (len(a) == 3 and a[2] in ('NOVALUE', 'EMPTY')) else a)
         try:
             isv = bool(o.isValue)
         except Exception as e:
@@ -978,6 +987,7 @@ class ChoiceRun(object):
                 raise Fail('state-differs-from-model:%s' % name, where=where, got=repr(g)[:200], want=repr(w)[:200])
 
     def step(self, op):
+        from pyasn1 import error
         k = op[0]
         o = self.o
         before = self.observe(o)
@@ -1014,11 +1024,25 @@ class ChoiceRun(object):
             self.check_state('after-' + k)
             return 'mut'
         if k in ('getName', 'getComponent', 'len', 'iter', 'items', 'get_noinst', 'encode', 'isValue', 'contains',
-                 'prettyPrint', 'eq_self'):
+                 'prettyPrint', 'eq_self', 'get_type'):
             m = self.m
             has = m is not None and m[1] != HOLE
             try:
-                if k == 'getName':
+                if k == 'get_type':
+                    j = min(op[1], len(self.alts) - 1)
+                    sub = self.schema.componentType[j].asn1Object
+                    if op[2] is not None and self.alts[j][1]['k'] == 'CHOICE':
+                        sub = sub.componentType[op[2]].asn1Object
+                    elif self.alts[j][1]['k'] == 'CHOICE':
+                        return 'skip'
+                    # the result is not modelled (nested addressing): the read must be pure; asking for the
+                    # inner component of a nested CHOICE with nothing chosen may be refused with a library error
+                    try:
+                        o.getComponentByType(sub.tagSet, default=None, instantiate=False, innerFlag=bool(op[3]))
+                    except error.PyAsn1Error:
+                        pass
+                    got = want = None
+                elif k == 'getName':
                     if m is None:
                         return 'skip'
                     got, want = o.getName(), m[0]
